@@ -41,6 +41,10 @@ def same(py, js):
     if isinstance(a, bool) or isinstance(b, bool):
         return a is b
     if isinstance(a, (int, float)) and isinstance(b, (int, float)):
+        if abs(a) > 2 ** 53:
+            # beyond the integers a JavaScript number can hold (not part of the shared domain): the nearest double, give or
+            # take the roundings of the sexagesimal sum
+            return abs(float(a) - float(b)) <= abs(float(a)) * 1e-15
         return float(a) == float(b)
     return a == b
 
@@ -69,11 +73,19 @@ def classify(kind, args, py, js):
         return 'other'
     if kind == 'tyrving':
         perf = args[3]
+        ev = args[2]
+        sp = ''
+        if isinstance(ev, str) and ev.endswith('\n') and not ev[:1].isspace():
+            sp = '/event-with-trailing-newline'          # Python's `$` matches before it, JavaScript's does not
+        elif isinstance(ev, str) and ev[:1].isspace():
+            sp = '/event-with-leading-blank'
+        elif isinstance(ev, str) and ev != ev.strip():
+            sp = '/event-with-trailing-blank'
         if isinstance(perf, str) and ',' in perf:
-            return 'comma'
+            return 'comma' + sp
         if isinstance(perf, str) and athlib.is_hand_timing(perf):
-            return 'hand-timed'
-        return 'plain'
+            return 'hand-timed' + sp
+        return 'plain' + sp
     if kind == 'norm':
         return 'norm'
     return 'plain'
@@ -269,7 +281,32 @@ def shard(ctx, payload):
                     if timed and c >= 6000 and c % 3 == 0:
                         args.append((g, age, ev, mss(c)))
                         args.append((g, age, ev, mss(c).replace(':', '.')))
+                        args.append((g, age, ev, mss(c)[:-1]))                       # m:ss.t (hand-timed)
+                        args.append((g, age, ev, mss(c)[:-1].replace(':', '.')))     # Norwegian m.ss.t
+                        if c % 100 == 0:
+                            args.append((g, age, ev, mss(c)[:-3]))                   # m:ss
             ages = junior.tyrving_ages(params)
+            # caller spellings of the event and gender x every carrier of the mark (the hand-timing decision and the
+            # table lookup must be taken on the same reading of the code in both languages)
+            spell = [' ' + ev, ev + ' ', '\t' + ev, ev + '\n', ' ' + ev.lower() + ' ', ev.lower(), ev.swapcase()]
+            for _ in range(12):
+                kind_, v = variants.variant(ev, rng.randrange)
+                if v != ev and v.isascii():
+                    spell.append(v)
+                    spell.append(' ' + v)
+            mid_age = ages[len(ages) // 2]
+            for sp_ in spell:
+                for age in (ages[0], mid_age, ages[-1]):
+                    c = cs[rng.randrange(len(cs))] if cs else 1000
+                    c10 = c - c % 10
+                    for gs in (g, g.lower(), ' ' + g):
+                        marks_ = [centi_float(c), fmt2(c), '%d.%d' % (c10 // 100, (c10 % 100) // 10), '%d' % (c // 100),
+                                  fmt2(c).replace('.', ','), '%d,%d' % (c10 // 100, (c10 % 100) // 10)]
+                        if timed and c >= 6000:
+                            marks_ += [mss(c), mss(c10)[:-1], mss(c).replace(':', '.')]
+                        for mk in marks_:
+                            args.append((gs, age, sp_, mk))
+            ctx.label('tyrving-caller-spellings', len(spell))
             args += [(g, ages[0] - 1, ev, '10.00'), (g, ages[-1] + 1, ev, '10.00'), (g.lower(), ages[0], ev.lower(), '10.00'),
                      ('X', ages[0], ev, '10.00'), (g, ages[0], 'MAR', '10.00'), (g, str(ages[0]), ev, '10.00')]
             run_batch('tyrving', args, lambda a: isinstance(a[3], str) and (athlib.is_hand_timing(a[3]) or ':' in a[3] or ',' in a[3]))
